@@ -310,6 +310,13 @@ func (st *c32state) exec(c *Ctx, line string) (string, string, []c32fail) {
 			fails = append(fails, c32fail{"read:count-out-of-range", st.tag})
 			return line, res, fails
 		}
+		if !st.corrupt[w[1]] && rerr != nil && c32errR(rerr) != "EOF" && c32errR(rerr) != "unexpected-EOF" {
+			// nothing in this inbox was modified by the harness, yet the connection reports an error:
+			// whatever the peer wrote afterwards is lost for the receiver
+			c.Count("oracle/error-on-untouched-stream")
+			fails = append(fails, c32fail{"read:decrypt-error-after-valid-stream", fmt.Sprintf("%s Read(len %d) on %s failed with %q although no byte on the wire was modified; the receiver had obtained %d of the %d bytes the peer wrote successfully (the remaining %d are lost)", st.tag, l, w[1], rerr.Error(), me.pos, len(peer.sent), len(peer.sent)-me.pos)})
+			st.corrupt[w[1]] = true
+		}
 		if !st.corrupt[w[1]] && rerr == nil {
 			if b0 > 0 {
 				c.Count("read/with-bytes-buffered")
@@ -408,6 +415,18 @@ func (st *c32state) inboxFrames(s string) int {
 	me.conn.in.mu.Lock()
 	defer me.conn.in.mu.Unlock()
 	return len(me.conn.in.buf) / connection.VerifSealedFrameSize
+}
+
+// sizes of large writes: around every multiple of 1024 up to 64 KiB and around the multiples of 16·1024
+func c32largeSize(c *Ctx) int {
+	fixed := []int{16383, 16384, 16385, 17408, 20517, 32768, 32769, 65536, 65537, 15360, 15361, 16384 + 1024, 2*16384 - 1, 3 * 16384, 3*16384 + 1, 4*16384 + 1}
+	switch c.Rng.Intn(3) {
+	case 0:
+		return fixed[c.Rng.Intn(len(fixed))]
+	case 1:
+		return (1+c.Rng.Intn(65))*1024 + c.Rng.Intn(3) - 1
+	}
+	return 5000 + c.Rng.Intn(62000)
 }
 
 func c32sizes(c *Ctx, max int, special []int) int {
@@ -571,6 +590,36 @@ func runC32(c *Ctx) {
 			c.Count("case/reads>=1024-only")
 		}
 		n := 6 + c.Rng.Intn(35)
+		largeCase := c.Rng.Intn(8) == 0
+		if largeCase {
+			// one Write of up to 64 KiB+ (sizes around every multiple of 1024 and of 16·1024), then further
+			// small writes; everything is read back by the drain below
+			c.Count("case/large-write")
+			n = 0
+			side := []string{"A", "B"}[c.Rng.Intn(2)]
+			for k, nw := 0, 1+c.Rng.Intn(2); k < nw && !st.dead; k++ {
+				d := make([]byte, c32largeSize(c))
+				c.Rng.Read(d)
+				lines := []string{fmt.Sprintf("w %s %s", side, c32hex(d))}
+				for j := c.Rng.Intn(4); j > 0; j-- {
+					e := make([]byte, 1+c.Rng.Intn(1500))
+					c.Rng.Read(e)
+					lines = append(lines, fmt.Sprintf("w %s %s", side, c32hex(e)))
+				}
+				if c.Rng.Intn(2) == 0 {
+					lines = append(lines, fmt.Sprintf("r %s %d", map[string]string{"A": "B", "B": "A"}[side], 1+c.Rng.Intn(3000)))
+				}
+				for _, l := range lines {
+					if st.dead {
+						break
+					}
+					op, res, fs := st.exec(c, l)
+					c.Op(op, res)
+					emitFails(fs)
+					key = append(key, op[:minInt32(len(op), 64)])
+				}
+			}
+		}
 		for k := 0; k < n; k++ {
 			l := st.genLine(c, &closed, bigReads)
 			if l == "" {
@@ -587,13 +636,17 @@ func runC32(c *Ctx) {
 		}
 		// drain both directions with large buffers (so that the whole stream is compared)
 		for _, s := range []string{"A", "B"} {
-			for k := 0; k < 64 && !st.dead && st.readable(s); k++ {
+			for k := 0; k < 400 && !st.dead && st.readable(s); k++ {
 				op, res, fs := st.exec(c, fmt.Sprintf("r %s %d", s, 1024+c.Rng.Intn(100)))
 				c.Op(op, res)
 				emitFails(fs)
-				if strings.Contains(res, "err=EOF") || strings.Contains(res, "err=unexpected-EOF") {
+				if strings.Contains(res, "err=EOF") || strings.Contains(res, "err=unexpected-EOF") || strings.Contains(res, "err=decrypt") {
 					break
 				}
+			}
+			// completeness: on an untouched direction everything the peer wrote has arrived
+			if me, peer := st.side(s); !st.dead && !st.corrupt[s] && me.pos != len(peer.sent) {
+				emitFails([]c32fail{{"read:stream-incomplete", fmt.Sprintf("%s after draining %s: %d of the %d bytes written by the peer were delivered", st.tag, s, me.pos, len(peer.sent))}})
 			}
 		}
 		c.Distinct(strings.Join(key, "|"))
